@@ -105,14 +105,151 @@ func scribble(g geom.Geom) {
 	}
 }
 
-func implGT(p *vproto.Parser) string {
-	kind := p.Next()
-	g := p.Geom()
-	before := vproto.GeomToks(g)
-	log := &callLog{}
-	t := mkTransformer(kind, log)
-	var res string
-	var out geom.Geom
+// ---- memory layouts of the input (flags after '@' in the transformer kind) ---------------------------
+//
+//	w  all point slices of the geometry are consecutive windows of ONE flat buffer, each with spare
+//	   capacity reaching into its successors (buf[0:5], buf[5:10], ...): an append or a write past len
+//	   would hit the neighbour
+//	x  a point slice whose contents are a prefix of an earlier one is a re-slice of it (shared memory)
+//	n  empty slices are nil slices
+type layouter struct {
+	flags string
+	buf   []geom.Point
+	seen  [][]geom.Point
+}
+
+func (l *layouter) pts(ps []geom.Point) []geom.Point {
+	if strings.Contains(l.flags, "n") && len(ps) == 0 {
+		return nil
+	}
+	if strings.Contains(l.flags, "x") && len(ps) > 0 {
+		for _, q := range l.seen {
+			if len(q) >= len(ps) && vproto.GeomToks(geom.LineString(q[:len(ps)])) == vproto.GeomToks(geom.LineString(ps)) {
+				return q[:len(ps)]
+			}
+		}
+	}
+	if strings.Contains(l.flags, "w") {
+		n := len(l.buf)
+		l.buf = append(l.buf, ps...)
+		ps = l.buf[n:len(l.buf)] // capacity runs to the end of buf
+	}
+	l.seen = append(l.seen, ps)
+	return ps
+}
+
+func (l *layouter) paths(pp []geom.Path) []geom.Path {
+	if strings.Contains(l.flags, "n") && len(pp) == 0 {
+		return nil
+	}
+	for i := range pp {
+		pp[i] = l.pts(pp[i])
+	}
+	return pp
+}
+
+func (l *layouter) geom(g geom.Geom) geom.Geom {
+	switch t := g.(type) {
+	case geom.MultiPoint:
+		return geom.MultiPoint(l.pts(t))
+	case geom.LineString:
+		return geom.LineString(l.pts(t))
+	case geom.MultiLineString:
+		if strings.Contains(l.flags, "n") && len(t) == 0 {
+			return geom.MultiLineString(nil)
+		}
+		for i := range t {
+			t[i] = l.pts(t[i])
+		}
+		return t
+	case geom.Polygon:
+		return geom.Polygon(l.paths(t))
+	case geom.MultiPolygon:
+		if strings.Contains(l.flags, "n") && len(t) == 0 {
+			return geom.MultiPolygon(nil)
+		}
+		for i := range t {
+			t[i] = l.paths(t[i])
+		}
+		return t
+	case geom.GeometryCollection:
+		if strings.Contains(l.flags, "n") && len(t) == 0 {
+			return geom.GeometryCollection(nil)
+		}
+		for i := range t {
+			if t[i] != nil {
+				t[i] = l.geom(t[i])
+			}
+		}
+		return t
+	}
+	return g
+}
+
+func countPts(g geom.Geom) int { return nVerts(g) }
+
+func relayout(g geom.Geom, flags string) geom.Geom {
+	if flags == "" {
+		return g
+	}
+	l := &layouter{flags: flags}
+	if strings.Contains(flags, "w") {
+		l.buf = make([]geom.Point, 0, countPts(g)+8) // never reallocates: windows stay in one array
+	}
+	return l.geom(g)
+}
+
+// mutateInPlace flips bit 8 of every coordinate held in a slice (same addresses, same lengths); value
+// types (Point, *Bounds contents) are replaced/updated likewise.  The low byte (poison marker) is kept.
+func flip(p geom.Point) geom.Point {
+	return geom.Point{X: math.Float64frombits(math.Float64bits(p.X) ^ 0x100), Y: math.Float64frombits(math.Float64bits(p.Y) ^ 0x100)}
+}
+
+func mutateInPlace(g geom.Geom, done map[*geom.Point]bool) geom.Geom {
+	pts := func(ps []geom.Point) {
+		for i := range ps {
+			if !done[&ps[i]] { // shared memory is flipped once
+				done[&ps[i]] = true
+				ps[i] = flip(ps[i])
+			}
+		}
+	}
+	switch t := g.(type) {
+	case geom.Point:
+		return flip(t)
+	case geom.MultiPoint:
+		pts(t)
+	case geom.LineString:
+		pts(t)
+	case geom.MultiLineString:
+		for i := range t {
+			pts(t[i])
+		}
+	case geom.Polygon:
+		for i := range t {
+			pts(t[i])
+		}
+	case geom.MultiPolygon:
+		for i := range t {
+			for j := range t[i] {
+				pts(t[i][j])
+			}
+		}
+	case geom.GeometryCollection:
+		for i := range t {
+			if t[i] != nil {
+				t[i] = mutateInPlace(t[i], done)
+			}
+		}
+	case *geom.Bounds:
+		if t != nil {
+			t.Min, t.Max = flip(t.Min), flip(t.Max)
+		}
+	}
+	return g
+}
+
+func runTransform(g geom.Geom, t proj.Transformer) (out geom.Geom, res string, panicked bool) {
 	pan := vproto.Safe(func() {
 		g2, err := g.Transform(t)
 		out = g2
@@ -128,25 +265,63 @@ func implGT(p *vproto.Parser) string {
 		res = "ok " + vproto.GeomToks(g2)
 	})
 	if pan != "" {
-		res = "panic " + pan
+		return nil, "panic " + pan, true
 	}
+	return out, res, false
+}
+
+func implGT(p *vproto.Parser) string {
+	kindFlags := p.Next()
+	kind, flags := kindFlags, ""
+	if i := strings.Index(kindFlags, "@"); i >= 0 {
+		kind, flags = kindFlags[:i], kindFlags[i+1:]
+	}
+	g := relayout(p.Geom(), flags)
+	before := vproto.GeomToks(g)
+	log := &callLog{}
+	t := mkTransformer(kind, log)
+	// call 1
+	out, res, pan := runTransform(g, t)
 	in := "same"
 	if vproto.GeomToks(g) != before {
 		in = "changed"
 	}
+	// call 2: the identical call again (fresh transformer of the same kind); then re-check result 1
+	rep, late := "same", "same"
+	out2, res2, _ := runTransform(g, mkTransformer(kind, &callLog{}))
+	if res2 != res {
+		rep = "diff"
+	}
+	if vproto.GeomToks(g) != before {
+		in = "changed"
+	}
+	// call 3: the operand is mutated IN PLACE (same addresses and lengths) and transformed again
+	g3 := mutateInPlace(g, map[*geom.Point]bool{})
+	before3 := vproto.GeomToks(g3)
+	out3, res3, _ := runTransform(g3, mkTransformer(kind, &callLog{}))
 	alias := "na"
-	if t != nil && pan == "" {
+	if t == nil {
+		late = "na"
+	} else if !pan {
+		// late check: the earlier results still read as they did when they were returned
+		if strings.HasPrefix(res, "ok ") && "ok "+vproto.GeomToks(out) != res {
+			late = "changed"
+		}
+		if strings.HasPrefix(res2, "ok ") && "ok "+vproto.GeomToks(out2) != res2 {
+			late = "changed"
+		}
 		alias = "no"
-		vproto.Safe(func() { scribble(out) })
-		if vproto.GeomToks(g) != before {
+		vproto.Safe(func() { scribble(out); scribble(out2); scribble(out3) })
+		if vproto.GeomToks(g3) != before3 {
 			alias = "yes"
 		}
 	}
 	var b strings.Builder
-	fmt.Fprintf(&b, "%s | in=%s alias=%s | calls %d", res, in, alias, len(log.xy)/2)
+	fmt.Fprintf(&b, "%s | in=%s alias=%s rep=%s late=%s | calls %d", res, in, alias, rep, late, len(log.xy)/2)
 	for _, u := range log.xy {
 		fmt.Fprintf(&b, " %016x", u)
 	}
+	fmt.Fprintf(&b, " | %s", res3)
 	return b.String()
 }
 
@@ -164,6 +339,13 @@ func gtCoord(r *vproto.Rng) float64 {
 		return math.Float64frombits(0x7ff8000000000000 | r.U64()&0x0007ffffffffffff)
 	case 4, 5:
 		return float64(r.Range(-1000, 1000))
+	case 6:
+		// the same small integers at extreme dyadic scales and at 1e9
+		k := []int{-30, -25, -20, 20, 25, 30}[r.Intn(6)]
+		if r.Intn(4) == 0 {
+			return float64(r.Range(-1000, 1000)) * 1e9
+		}
+		return math.Ldexp(float64(r.Range(-1000, 1000)), k)
 	default:
 		return (r.Float() - 0.5) * math.Pow(10, float64(r.Range(-3, 8)))
 	}
@@ -181,6 +363,8 @@ func unpoison(x float64) float64 {
 type gtGen struct {
 	r      *vproto.Rng
 	poison float64 // probability that a vertex is poison
+	big    int     // how many counts of this geometry may still be a size threshold (64 … 2048)
+	prefix bool    // rings of a polygon / lines of a multi-line are prefixes of one base ring
 }
 
 func (g *gtGen) pt() geom.Point {
@@ -192,6 +376,10 @@ func (g *gtGen) pt() geom.Point {
 }
 
 func (g *gtGen) count() int {
+	if g.big > 0 && g.r.Chance(0.5) {
+		g.big--
+		return []int{63, 64, 65, 128, 129, 1024, 1025, 2048}[g.r.Intn(8)]
+	}
 	switch g.r.Intn(10) {
 	case 0, 1:
 		return 0
@@ -218,8 +406,16 @@ func (g *gtGen) pts() []geom.Point {
 func (g *gtGen) ptss() []geom.Path {
 	n := g.count()
 	p := make([]geom.Path, n)
+	var base []geom.Point
 	for i := range p {
+		if g.prefix && i > 0 && len(base) > 0 {
+			p[i] = append([]geom.Point{}, base[:g.r.Intn(len(base)+1)]...)
+			continue
+		}
 		p[i] = g.pts()
+		if i == 0 {
+			base = p[0]
+		}
 	}
 	return p
 }
@@ -233,10 +429,10 @@ func (g *gtGen) geomOf(k, depth int, nilMembers bool) geom.Geom {
 	case 2:
 		return geom.LineString(g.pts())
 	case 3:
-		n := g.count()
-		m := make(geom.MultiLineString, n)
+		pp := g.ptss()
+		m := make(geom.MultiLineString, len(pp))
 		for i := range m {
-			m[i] = g.pts()
+			m[i] = geom.LineString(pp[i])
 		}
 		return m
 	case 4:
@@ -332,6 +528,7 @@ func genGT(r *vproto.Rng, n int, emit func(string)) {
 	for _, g := range corpus {
 		line("nil", g)
 		line("p", g)
+		line("p@wxn", g)
 		nv := nVerts(g)
 		for _, k := range []int{0, nv / 2, nv - 1, nv} {
 			if k >= 0 {
@@ -340,17 +537,27 @@ func genGT(r *vproto.Rng, n int, emit func(string)) {
 		}
 	}
 	gg := &gtGen{r: r}
+	layouts := []string{"", "", "", "@w", "@w", "@x", "@wx", "@n", "@wn", "@wxn"}
 	for i := 0; i < n; i++ {
 		k := i % 8
 		mode := r.Intn(10)
+		lay := layouts[r.Intn(len(layouts))]
+		gg.big = 0
+		if r.Chance(0.02) {
+			gg.big = 1 // one size threshold at exactly one nesting level
+		}
+		gg.prefix = strings.Contains(lay, "x") || r.Chance(0.1)
 		switch {
 		case mode == 0:
 			gg.poison = 0
-			line("nil", gg.geomOf(k, 3, r.Chance(0.1)))
+			line("nil"+lay, gg.geomOf(k, 3, r.Chance(0.1)))
 		case mode <= 4:
 			// pure transformer; poison density chosen so that none/one/several vertices fail
 			gg.poison = []float64{0, 0, 0.02, 0.1, 0.4}[r.Intn(5)]
-			line("p", gg.geomOf(k, 3, r.Chance(0.05)))
+			if gg.big > 0 {
+				gg.poison = []float64{0, 0, 0.001}[r.Intn(3)]
+			}
+			line("p"+lay, gg.geomOf(k, 3, r.Chance(0.05)))
 		default:
 			gg.poison = 0
 			g := gg.geomOf(k, 3, false)
@@ -371,7 +578,7 @@ func genGT(r *vproto.Rng, n int, emit func(string)) {
 			if fail < 0 {
 				fail = 0
 			}
-			line(fmt.Sprintf("c%d", fail), g)
+			line(fmt.Sprintf("c%d%s", fail, lay), g)
 		}
 	}
 }
